@@ -364,7 +364,8 @@ def main():
     try:
         ir_s = run.build_ir()
         for k in set(o.ir for o in obs): run.module(k)
-        if any(o.validate and o.real for o in obs): run.build_real()
+        if any(o.real for o in obs): run.build_real()
+        print(f'[{a.prop}] sources captured (IR and real-code build done; /repo is not read again)', flush=True)
         tasks = [(o, v) for o in obs for v in o.variants]
         # heavier (longer time-out) first
         tasks.sort(key=lambda t: -t[0].timeout)
